@@ -16,16 +16,16 @@ Exprs == {
   "1 / 0", "1 % 0", "B1 / B0", "1.0 / 0", "0b1 / 0b0", "5 << 99", "5 << -1", "5 >> B200", "0b1 << 9", "2147483647 + 1", "-2147483647 - 2",
   "B170141183460469231731687303715884105727 + B1", "2147483648", "-2147483648", "99999999999999999999999999999999999999999", "0b111111111", "1e999",
   "typeof k", "typeof -5", "typeof typeof k", "get nil", "get 5", "nil or 1", "(k) or 1", "k ?= 5", "5 ?= k", "nil ?= nil", "-true", "!5", "-\"s\"", "--5", "- -5",
-  "k()", "5()", "f(1)(2)", "f()", "f(1, 2)", "f(f)", "o.zz", "o.v.w", "o.get()", "o.get(1)", "Box(1)", "Box", "self", "Self", "nosuch", "print",
+  "k()", "5()", "f(1)(2)", "f()", "f(1, 2)", "f(f)", "o.zz", "o.v.w", "o.val()", "o.val(1)", "Box(1)", "Box", "self", "Self", "nosuch", "print",
   "[1, \"a\"]", "[]", "[[]]", "[1, [2]]", "map[int, str]", "map[int, str] {1: 2}", "map[str, int] {\"a\": 1, \"a\": 2}", "fn() { return 1 }", "fn() -> int { }",
   "fn(a: int, a: int) { }", "1 is nil", "xs is ys", "f == f", "xs == 1", "\"a\" * -1", "\"a\" * 2147483647", "\"a\" + nil", "1 + \"a\" + 2", "k += 1", "k = 5" }
 
 Contexts == {"stmt", "print", "decl", "typed_decl", "arg", "arg2", "method_arg", "ctor_arg", "push_arg", "list_elem", "index", "cond", "while_cond",
              "bound", "step", "ret", "operand_l", "operand_r", "assert", "reassign", "field_assign", "index_assign", "map_value", "in_fn", "in_method", "or_fallback"}
 
-Prologue == <<"class Box {", "	v: int", "	constructor(self) {", "		self.v = 1", "	}", "	fn get(self) -> int {", "		return self.v", "	}",
+Prologue == <<"class Box {", "	v: int", "	constructor(self) {", "		self.v = 1", "	}", "	fn val(self) -> int {", "		return self.v", "	}",
               "	fn add(self, n: int) -> int {", "		return self.v + n", "	}", "}", "class Pt {", "	q: int", "	constructor(self, q: int) {", "		self.q = q", "	}", "}",
-              "xs: [int...] = [1, 2]", "ys = [1, 2]", "mm = map[str, int] {\"a\": 1}", "k = 0", "o = Box()", "io: int? = nil",
+              "xs: [int...] = [1, 2]", "const ys = [1, 2]", "mm = map[str, int] {\"a\": 1}", "k = 0", "o = Box()", "io: int? = nil",
               "f = fn(a: int) -> int { return a }", "g = fn(a: int, b: int) -> int { return a + b }">>
 
 In(ctx, e) ==
@@ -80,5 +80,5 @@ Next == UNCHANGED c
 
 Lines == IF c.kind = "expr" THEN Prologue \o In(c.ctx, c.e) ELSE Placed(c.place, ImportLine(c.form, c.path))
 Id == IF c.kind = "expr" THEN c.ctx \o ": " \o c.e ELSE c.place \o ": " \o ImportLine(c.form, c.path)
-EmitCase == PrintT("CASE " \o ToJson([id |-> Id, kind |-> c.kind, lines |-> Lines, lib |-> (c.kind = "import")]))
+EmitCase == PrintT("CASE " \o ToJson([id |-> Id, kind |-> c.kind, lines |-> Lines, lib |-> (c.kind = "import"), prologue |-> Prologue]))
 =============================================================================
